@@ -1,21 +1,23 @@
 /-
   C03D — inventory of the Go sites that can panic by themselves, and the checked mirror that covers each.
 
-  The table `sites` below was produced mechanically from /repo (commit of the day) by a go/ast + go/types walk over all
+  The table `sites` below was produced mechanically from /repo (HEAD f7f3dd0) by a go/ast + go/types walk over all
   non-test files of the module (program text at the end of this file): every
     * `index`   — index expression `x[i]` on a string, slice or array (map indexing cannot panic and is left out),
     * `slice`   — slice expression `x[a:b]`,
     * `make`    — `make` of a slice with a non-constant length,        `makemap` — `make` of a map with a size hint,
+    * `makecap` — `make([]T, n, cap)` of a slice with a CONSTANT length and a non-constant capacity (all seven are
+                  `make([]any, 0, len(x))`),
     * `assert`  — single-value type assertion `x.(T)` (comma-ok forms and type switches cannot panic and are left out),
     * `intdiv`  — integer `/` or `%` with a non-constant divisor,
-    * `grow`    — `strings.Builder.Grow(n)` (panics on a negative count).
+    * `grow`    — `strings.Builder.Grow(n)` (panics on a negative count; all four go through `grow?`).
   The last field (`Cover`) names the checked mirror (a definition of `Jmes/Proofs/C03D*.lean`, namespace `Jmes.C03D`)
   through which the site goes, or one of the tags
     * `arity` — `node.Arguments[k]`: in range because the parser builds every call node with the argument count of its
                  builtin; proved in `Jmes/Properties/C08B.lean` (`compile_arityOK`, `call_never_default`), restated in
                  `Jmes/Properties/C03D.lean` (`applyFnC`: the wrong-arity arm is a PANIC there);
     * `lib`   — callback invoked by package `sort` with indices below `Len()`;
-    * `na`    — cannot panic for a reason visible at the site (the argument is a `len(…)`);
+    * `na`    — cannot panic for a reason visible at the site (the size hint / the capacity is a `len(…)`);
     * `out`   — not reachable from `Compile` / `Search` / `Expression.Search`.
   `Jmes/Properties/C03D.lean` states, per mirror, the theorem "the checked mirror equals the model function".
 -/
@@ -50,8 +52,12 @@ def sites : List Site := [
   ⟨"internal/evaluator/array.go", 129, "(*evaluator).arrayMinBy", "index", "a[index]", .mirror "ArrGo.arrayMinByC"⟩,
   ⟨"internal/evaluator/array.go", 140, "(*evaluator).arrayMinBy", "slice", "a[1:]", .mirror "ArrGo.arrayMinByC"⟩,
   ⟨"internal/evaluator/array.go", 160, "(*evaluator).arrayMinBy", "index", "a[index]", .mirror "ArrGo.arrayMinByC"⟩,
+  ⟨"internal/evaluator/array.go", 169, "(*evaluator).filter", "makecap", "make([]any, 0, len(a))", .na "make([]T, 0, len(x)): length 0, capacity = length of an existing slice (never negative, within the allocation limit of the element type since x exists)"⟩,
+  ⟨"internal/evaluator/array.go", 190, "(*evaluator).filterAndProjectArray", "makecap", "make([]any, 0, len(a))", .na "make([]T, 0, len(x)): length 0, capacity = length of an existing slice (never negative, within the allocation limit of the element type since x exists)"⟩,
+  ⟨"internal/evaluator/array.go", 220, "(*evaluator).flattenAndProjectArray", "makecap", "make([]any, 0, len(a))", .na "make([]T, 0, len(x)): length 0, capacity = length of an existing slice (never negative, within the allocation limit of the element type since x exists)"⟩,
   ⟨"internal/evaluator/array.go", 264, "(*evaluator).mapArray", "make", "make([]any, len(a))", .mirror "ArrGo.mapArrayC"⟩,
   ⟨"internal/evaluator/array.go", 271, "(*evaluator).mapArray", "index", "r[i]", .mirror "ArrGo.mapArrayC"⟩,
+  ⟨"internal/evaluator/array.go", 283, "(*evaluator).projectArray", "makecap", "make([]any, 0, len(a))", .na "make([]T, 0, len(x)): length 0, capacity = length of an existing slice (never negative, within the allocation limit of the element type since x exists)"⟩,
   ⟨"internal/evaluator/array.go", 310, "(sortByNumber).Less", "index", "s.by[i]", .lib "sort.Stable callback (indices chosen by package sort within Len() = len(items) = len(by): ArrGo.keysOf_length)"⟩,
   ⟨"internal/evaluator/array.go", 310, "(sortByNumber).Less", "index", "s.by[j]", .lib "sort.Stable callback (indices chosen by package sort within Len() = len(items) = len(by): ArrGo.keysOf_length)"⟩,
   ⟨"internal/evaluator/array.go", 314, "(sortByNumber).Swap", "index", "s.items[i]", .lib "sort.Stable callback (indices chosen by package sort within Len() = len(items) = len(by): ArrGo.keysOf_length)"⟩,
@@ -91,6 +97,7 @@ def sites : List Site := [
   ⟨"internal/evaluator/array.go", 508, "arrayMin", "index", "a[0]", .mirror "ArrGo.arrayMinC"⟩,
   ⟨"internal/evaluator/array.go", 511, "arrayMin", "index", "a[0]", .mirror "ArrGo.arrayMinC"⟩,
   ⟨"internal/evaluator/array.go", 516, "arrayMin", "slice", "a[1:]", .mirror "ArrGo.arrayMinC"⟩,
+  ⟨"internal/evaluator/array.go", 539, "flatten", "makecap", "make([]any, 0, len(a))", .mirror "ArrGo.flattenC"⟩,
   ⟨"internal/evaluator/array.go", 579, "index", "index", "a[i]", .mirror "SliceGo.indexG"⟩,
   ⟨"internal/evaluator/array.go", 601, "pruneArray", "slice", "a[:i]", .mirror "ArrGo.pruneArrayC"⟩,
   ⟨"internal/evaluator/array.go", 630, "sortArray", "index", "a[0]", .mirror "ArrGo.sortArrayC"⟩,
@@ -189,13 +196,14 @@ def sites : List Site := [
   ⟨"internal/evaluator/functions.go", 47, "isJSONNumber", "index", "s[i]", .mirror "ArrGo.isJSONNumberC"⟩,
   ⟨"internal/evaluator/functions.go", 52, "isJSONNumber", "index", "s[i]", .mirror "ArrGo.isJSONNumberC"⟩,
   ⟨"internal/evaluator/functions.go", 52, "isJSONNumber", "index", "s[i]", .mirror "ArrGo.isJSONNumberC"⟩,
-  ⟨"internal/evaluator/functions.go", 94, "reverse", "grow", "b.Grow(len(s))", .na "Grow(len(s)) >= 0"⟩,
+  ⟨"internal/evaluator/functions.go", 94, "reverse", "grow", "b.Grow(len(s))", .mirror "ArrGo.reverseC"⟩,
   ⟨"internal/evaluator/functions.go", 99, "reverse", "slice", "s[:len(s)-sz]", .mirror "ArrGo.reverseC"⟩,
   ⟨"internal/evaluator/functions.go", 107, "reverse", "make", "make([]any, l)", .mirror "ArrGo.reverseC"⟩,
-  ⟨"internal/evaluator/functions.go", 109, "reverse", "index", "a[i]", .mirror "ArrGo.reverseC"⟩,
   ⟨"internal/evaluator/functions.go", 109, "reverse", "index", "r[j]", .mirror "ArrGo.reverseC"⟩,
+  ⟨"internal/evaluator/functions.go", 109, "reverse", "index", "a[i]", .mirror "ArrGo.reverseC"⟩,
   ⟨"internal/evaluator/object.go", 22, "(*evaluator).groupBy", "makemap", "make(map[string]any, len(a))", .na "size hint len(x) >= 0 of a map"⟩,
   ⟨"internal/evaluator/object.go", 40, "(*evaluator).groupBy", "assert", "r[s].([]any)", .mirror "ArrGo.groupByC"⟩,
+  ⟨"internal/evaluator/object.go", 53, "(*evaluator).projectObject", "makecap", "make([]any, 0, len(m))", .na "make([]T, 0, len(x)): length 0, capacity = number of entries of an existing map[string]any (never negative; every entry already occupies more memory than one element of T = any, so within the allocation limit since x exists)"⟩,
   ⟨"internal/evaluator/object.go", 88, "fromItems", "makemap", "make(map[string]any, len(a))", .na "size hint len(x) >= 0 of a map"⟩,
   ⟨"internal/evaluator/object.go", 104, "fromItems", "index", "ia[0]", .mirror "ObjGo.fromItemsLoopG"⟩,
   ⟨"internal/evaluator/object.go", 107, "fromItems", "index", "ia[0]", .mirror "ObjGo.fromItemsLoopG"⟩,
@@ -204,6 +212,7 @@ def sites : List Site := [
   ⟨"internal/evaluator/object.go", 129, "items", "index", "r[i]", .mirror "ObjGo.itemsC"⟩,
   ⟨"internal/evaluator/object.go", 145, "keys", "make", "make([]any, len(m))", .mirror "ObjGo.keysC"⟩,
   ⟨"internal/evaluator/object.go", 148, "keys", "index", "r[i]", .mirror "ObjGo.keysC"⟩,
+  ⟨"internal/evaluator/object.go", 161, "objectValues", "makecap", "make([]any, 0, len(m))", .na "make([]T, 0, len(x)): length 0, capacity = number of entries of an existing map[string]any (never negative; every entry already occupies more memory than one element of T = any, so within the allocation limit since x exists)"⟩,
   ⟨"internal/evaluator/object.go", 182, "values", "make", "make([]any, len(m))", .mirror "ObjGo.valuesC"⟩,
   ⟨"internal/evaluator/object.go", 185, "values", "index", "r[i]", .mirror "ObjGo.valuesC"⟩,
   ⟨"internal/evaluator/slice.go", 50, "slice", "slice", "a[start:stop]", .mirror "SliceGo.sliceC"⟩,
@@ -260,8 +269,8 @@ def sites : List Site := [
   ⟨"internal/evaluator/string.go", 880, "split", "index", "r[i]", .mirror "StrGo.splitG"⟩,
   ⟨"internal/evaluator/string.go", 881, "split", "slice", "r[:i+1]", .mirror "StrGo.splitG"⟩,
   ⟨"internal/evaluator/string.go", 942, "splitCount", "make", "make([]any, n+1)", .mirror "StrGo.splitCountG"⟩,
-  ⟨"internal/evaluator/string.go", 947, "splitCount", "slice", "s[:l]", .mirror "StrGo.splitCountG"⟩,
   ⟨"internal/evaluator/string.go", 947, "splitCount", "index", "r[i]", .mirror "StrGo.splitCountG"⟩,
+  ⟨"internal/evaluator/string.go", 947, "splitCount", "slice", "s[:l]", .mirror "StrGo.splitCountG"⟩,
   ⟨"internal/evaluator/string.go", 948, "splitCount", "slice", "s[l:]", .mirror "StrGo.splitCountG"⟩,
   ⟨"internal/evaluator/string.go", 952, "splitCount", "index", "r[i]", .mirror "StrGo.splitCountG"⟩,
   ⟨"internal/evaluator/string.go", 953, "splitCount", "slice", "r[:i+1]", .mirror "StrGo.splitCountG"⟩,
@@ -379,39 +388,39 @@ def sites : List Site := [
   ⟨"internal/parser/node.go", 1288, "(*TrimLeftNode).Walk", "index", "n.Arguments[1]", .out "Walk is reached only from parser.WriteTo (debug printer), not from Compile/Search; arity as above"⟩,
   ⟨"internal/parser/node.go", 1300, "(*TrimRightNode).Walk", "index", "n.Arguments[0]", .out "Walk is reached only from parser.WriteTo (debug printer), not from Compile/Search; arity as above"⟩,
   ⟨"internal/parser/node.go", 1301, "(*TrimRightNode).Walk", "index", "n.Arguments[1]", .out "Walk is reached only from parser.WriteTo (debug printer), not from Compile/Search; arity as above"⟩,
-  ⟨"internal/parser/parser.go", 2111, "parseJSONLiteral", "slice", "s[1 : len(s)-1]", .mirror "LitGo.parseJSONLiteralG"⟩,
-  ⟨"internal/parser/parser.go", 2116, "parseJSONLiteral", "index", "v[0]", .mirror "LitGo.parseJSONLiteralG"⟩,
-  ⟨"internal/parser/parser.go", 2187, "parseQuotedIdentifier", "slice", "s[1 : len(s)-1]", .mirror "LitGo.parseQuotedIdentifierG"⟩,
-  ⟨"internal/parser/parser.go", 2189, "parseQuotedIdentifier", "index", "v[j]", .mirror "LitGo.parseQuotedIdentifierG"⟩,
-  ⟨"internal/parser/parser.go", 2200, "parseQuotedIdentifier", "grow", "b.Grow(len(v))", .na "Grow(len(v)) >= 0"⟩,
-  ⟨"internal/parser/parser.go", 2201, "parseQuotedIdentifier", "slice", "v[:i]", .mirror "LitGo.parseQuotedIdentifierG"⟩,
-  ⟨"internal/parser/parser.go", 2203, "parseQuotedIdentifier", "slice", "v[i+1:]", .mirror "LitGo.parseQuotedIdentifierG"⟩,
-  ⟨"internal/parser/parser.go", 2205, "parseQuotedIdentifier", "index", "v[0]", .mirror "LitGo.parseQuotedIdentifierG"⟩,
-  ⟨"internal/parser/parser.go", 2208, "parseQuotedIdentifier", "slice", "v[1:]", .mirror "LitGo.parseQuotedIdentifierG"⟩,
-  ⟨"internal/parser/parser.go", 2211, "parseQuotedIdentifier", "slice", "v[1:]", .mirror "LitGo.parseQuotedIdentifierG"⟩,
-  ⟨"internal/parser/parser.go", 2214, "parseQuotedIdentifier", "slice", "v[1:]", .mirror "LitGo.parseQuotedIdentifierG"⟩,
-  ⟨"internal/parser/parser.go", 2217, "parseQuotedIdentifier", "slice", "v[1:]", .mirror "LitGo.parseQuotedIdentifierG"⟩,
-  ⟨"internal/parser/parser.go", 2220, "parseQuotedIdentifier", "slice", "v[1:]", .mirror "LitGo.parseQuotedIdentifierG"⟩,
-  ⟨"internal/parser/parser.go", 2223, "parseQuotedIdentifier", "slice", "v[1:]", .mirror "LitGo.parseQuotedIdentifierG"⟩,
-  ⟨"internal/parser/parser.go", 2226, "parseQuotedIdentifier", "slice", "v[1:]", .mirror "LitGo.parseQuotedIdentifierG"⟩,
-  ⟨"internal/parser/parser.go", 2229, "parseQuotedIdentifier", "slice", "v[1:]", .mirror "LitGo.parseQuotedIdentifierG"⟩,
-  ⟨"internal/parser/parser.go", 2236, "parseQuotedIdentifier", "slice", "v[1:5]", .mirror "LitGo.parseQuotedIdentifierG"⟩,
-  ⟨"internal/parser/parser.go", 2248, "parseQuotedIdentifier", "slice", "v[5:]", .mirror "LitGo.parseQuotedIdentifierG"⟩,
-  ⟨"internal/parser/parser.go", 2255, "parseQuotedIdentifier", "index", "v[0]", .mirror "LitGo.parseQuotedIdentifierG"⟩,
-  ⟨"internal/parser/parser.go", 2255, "parseQuotedIdentifier", "index", "v[1]", .mirror "LitGo.parseQuotedIdentifierG"⟩,
-  ⟨"internal/parser/parser.go", 2260, "parseQuotedIdentifier", "slice", "v[2:6]", .mirror "LitGo.parseQuotedIdentifierG"⟩,
-  ⟨"internal/parser/parser.go", 2273, "parseQuotedIdentifier", "slice", "v[6:]", .mirror "LitGo.parseQuotedIdentifierG"⟩,
-  ⟨"internal/parser/parser.go", 2288, "parseQuotedIdentifier", "slice", "v[:i]", .mirror "LitGo.parseQuotedIdentifierG"⟩,
-  ⟨"internal/parser/parser.go", 2289, "parseQuotedIdentifier", "slice", "v[i+1:]", .mirror "LitGo.parseQuotedIdentifierG"⟩,
-  ⟨"internal/parser/parser.go", 2294, "parseStringLiteral", "slice", "s[1 : len(s)-1]", .mirror "LitGo.parseStringLiteralG"⟩,
-  ⟨"internal/parser/parser.go", 2303, "parseStringLiteral", "grow", "b.Grow(len(v))", .na "Grow(len(v)) >= 0"⟩,
-  ⟨"internal/parser/parser.go", 2304, "parseStringLiteral", "slice", "v[:i]", .mirror "LitGo.parseStringLiteralG"⟩,
-  ⟨"internal/parser/parser.go", 2306, "parseStringLiteral", "slice", "v[i+1:]", .mirror "LitGo.parseStringLiteralG"⟩,
-  ⟨"internal/parser/parser.go", 2308, "parseStringLiteral", "index", "v[0]", .mirror "LitGo.parseStringLiteralG"⟩,
-  ⟨"internal/parser/parser.go", 2315, "parseStringLiteral", "index", "v[0]", .mirror "LitGo.parseStringLiteralG"⟩,
-  ⟨"internal/parser/parser.go", 2318, "parseStringLiteral", "slice", "v[1:]", .mirror "LitGo.parseStringLiteralG"⟩,
-  ⟨"internal/parser/parser.go", 2328, "parseStringLiteral", "slice", "v[:i]", .mirror "LitGo.parseStringLiteralG"⟩,
-  ⟨"internal/parser/parser.go", 2329, "parseStringLiteral", "slice", "v[i+1:]", .mirror "LitGo.parseStringLiteralG"⟩
+  ⟨"internal/parser/parser.go", 2112, "parseJSONLiteral", "slice", "s[1 : len(s)-1]", .mirror "LitGo.parseJSONLiteralG"⟩,
+  ⟨"internal/parser/parser.go", 2117, "parseJSONLiteral", "index", "v[0]", .mirror "LitGo.parseJSONLiteralG"⟩,
+  ⟨"internal/parser/parser.go", 2188, "parseQuotedIdentifier", "slice", "s[1 : len(s)-1]", .mirror "LitGo.parseQuotedIdentifierG"⟩,
+  ⟨"internal/parser/parser.go", 2190, "parseQuotedIdentifier", "index", "v[j]", .mirror "LitGo.parseQuotedIdentifierG"⟩,
+  ⟨"internal/parser/parser.go", 2201, "parseQuotedIdentifier", "grow", "b.Grow(len(v))", .mirror "LitGo.parseQuotedIdentifierC"⟩,
+  ⟨"internal/parser/parser.go", 2202, "parseQuotedIdentifier", "slice", "v[:i]", .mirror "LitGo.parseQuotedIdentifierG"⟩,
+  ⟨"internal/parser/parser.go", 2204, "parseQuotedIdentifier", "slice", "v[i+1:]", .mirror "LitGo.parseQuotedIdentifierG"⟩,
+  ⟨"internal/parser/parser.go", 2206, "parseQuotedIdentifier", "index", "v[0]", .mirror "LitGo.parseQuotedIdentifierG"⟩,
+  ⟨"internal/parser/parser.go", 2209, "parseQuotedIdentifier", "slice", "v[1:]", .mirror "LitGo.parseQuotedIdentifierG"⟩,
+  ⟨"internal/parser/parser.go", 2212, "parseQuotedIdentifier", "slice", "v[1:]", .mirror "LitGo.parseQuotedIdentifierG"⟩,
+  ⟨"internal/parser/parser.go", 2215, "parseQuotedIdentifier", "slice", "v[1:]", .mirror "LitGo.parseQuotedIdentifierG"⟩,
+  ⟨"internal/parser/parser.go", 2218, "parseQuotedIdentifier", "slice", "v[1:]", .mirror "LitGo.parseQuotedIdentifierG"⟩,
+  ⟨"internal/parser/parser.go", 2221, "parseQuotedIdentifier", "slice", "v[1:]", .mirror "LitGo.parseQuotedIdentifierG"⟩,
+  ⟨"internal/parser/parser.go", 2224, "parseQuotedIdentifier", "slice", "v[1:]", .mirror "LitGo.parseQuotedIdentifierG"⟩,
+  ⟨"internal/parser/parser.go", 2227, "parseQuotedIdentifier", "slice", "v[1:]", .mirror "LitGo.parseQuotedIdentifierG"⟩,
+  ⟨"internal/parser/parser.go", 2230, "parseQuotedIdentifier", "slice", "v[1:]", .mirror "LitGo.parseQuotedIdentifierG"⟩,
+  ⟨"internal/parser/parser.go", 2237, "parseQuotedIdentifier", "slice", "v[1:5]", .mirror "LitGo.parseQuotedIdentifierG"⟩,
+  ⟨"internal/parser/parser.go", 2249, "parseQuotedIdentifier", "slice", "v[5:]", .mirror "LitGo.parseQuotedIdentifierG"⟩,
+  ⟨"internal/parser/parser.go", 2256, "parseQuotedIdentifier", "index", "v[0]", .mirror "LitGo.parseQuotedIdentifierG"⟩,
+  ⟨"internal/parser/parser.go", 2256, "parseQuotedIdentifier", "index", "v[1]", .mirror "LitGo.parseQuotedIdentifierG"⟩,
+  ⟨"internal/parser/parser.go", 2261, "parseQuotedIdentifier", "slice", "v[2:6]", .mirror "LitGo.parseQuotedIdentifierG"⟩,
+  ⟨"internal/parser/parser.go", 2278, "parseQuotedIdentifier", "slice", "v[6:]", .mirror "LitGo.parseQuotedIdentifierG"⟩,
+  ⟨"internal/parser/parser.go", 2293, "parseQuotedIdentifier", "slice", "v[:i]", .mirror "LitGo.parseQuotedIdentifierG"⟩,
+  ⟨"internal/parser/parser.go", 2294, "parseQuotedIdentifier", "slice", "v[i+1:]", .mirror "LitGo.parseQuotedIdentifierG"⟩,
+  ⟨"internal/parser/parser.go", 2299, "parseStringLiteral", "slice", "s[1 : len(s)-1]", .mirror "LitGo.parseStringLiteralG"⟩,
+  ⟨"internal/parser/parser.go", 2308, "parseStringLiteral", "grow", "b.Grow(len(v))", .mirror "LitGo.parseStringLiteralC"⟩,
+  ⟨"internal/parser/parser.go", 2309, "parseStringLiteral", "slice", "v[:i]", .mirror "LitGo.parseStringLiteralG"⟩,
+  ⟨"internal/parser/parser.go", 2311, "parseStringLiteral", "slice", "v[i+1:]", .mirror "LitGo.parseStringLiteralG"⟩,
+  ⟨"internal/parser/parser.go", 2313, "parseStringLiteral", "index", "v[0]", .mirror "LitGo.parseStringLiteralG"⟩,
+  ⟨"internal/parser/parser.go", 2320, "parseStringLiteral", "index", "v[0]", .mirror "LitGo.parseStringLiteralG"⟩,
+  ⟨"internal/parser/parser.go", 2323, "parseStringLiteral", "slice", "v[1:]", .mirror "LitGo.parseStringLiteralG"⟩,
+  ⟨"internal/parser/parser.go", 2333, "parseStringLiteral", "slice", "v[:i]", .mirror "LitGo.parseStringLiteralG"⟩,
+  ⟨"internal/parser/parser.go", 2334, "parseStringLiteral", "slice", "v[i+1:]", .mirror "LitGo.parseStringLiteralG"⟩
 ]
 
 def Cover.isMirror : Cover → Bool | .mirror _ => true | _ => false
@@ -421,23 +430,44 @@ def Cover.isNa : Cover → Bool | .na _ => true | _ => false
 def Cover.isOut : Cover → Bool | .out _ => true | _ => false
 def mirrored : List Site := sites.filter (·.cover.isMirror)
 
-/-- the inventory: 372 sites, of which 216 go through a checked mirror, 64 are `node.Arguments[k]` in the evaluator
-    (arity), 20 are `sort.Stable` callbacks, 8 cannot panic by inspection, 64 are outside the entry points (`Walk`) -/
-theorem count_sites : sites.length = 372 := by decide +kernel
-theorem count_mirrored : mirrored.length = 216 := by decide +kernel
+/-- the inventory: 379 sites, of which 220 go through a checked mirror, 64 are `node.Arguments[k]` in the evaluator
+    (arity), 20 are `sort.Stable` callbacks, 11 cannot panic by inspection (5 map size hints `len(x)`, 6 capacities
+    `make([]any, 0, len(x))`), 64 are outside the entry points (`Walk`) -/
+theorem count_sites : sites.length = 379 := by decide +kernel
+theorem count_mirrored : mirrored.length = 220 := by decide +kernel
 theorem count_arity : (sites.filter (·.cover.isArity)).length = 64 := by decide +kernel
 theorem count_lib : (sites.filter (·.cover.isLib)).length = 20 := by decide +kernel
-theorem count_na : (sites.filter (·.cover.isNa)).length = 8 := by decide +kernel
+theorem count_na : (sites.filter (·.cover.isNa)).length = 11 := by decide +kernel
 theorem count_out : (sites.filter (·.cover.isOut)).length = 64 := by decide +kernel
 
 /-- the sites of one Go function -/
 def ofFunc (file func : String) : List Site := sites.filter (fun s => s.file = file ∧ s.func = func)
 example : (ofFunc "internal/evaluator/string.go" "findFirstBetween").map (·.text) = ["s[n:]", "s[n:]", "s[i:j]", "s[:r+i]"] := by decide +kernel
+/-- the sites of one kind -/
+def ofKind (kind : String) : List Site := sites.filter (fun s => s.kind = kind)
+/-- the four `Grow` calls, each through a mirror with `grow?` -/
+example : (ofKind "grow").map (fun s => (s.file, s.line, s.cover)) =
+    [("internal/evaluator/functions.go", 94, .mirror "ArrGo.reverseC"),
+     ("internal/evaluator/slice.go", 237, .mirror "SliceGo.sliceStepC"),
+     ("internal/parser/parser.go", 2201, .mirror "LitGo.parseQuotedIdentifierC"),
+     ("internal/parser/parser.go", 2308, .mirror "LitGo.parseStringLiteralC")] := by decide +kernel
+/-- the seven `make([]any, 0, len(x))`: five in array.go (the one of `flatten` mirrored), two in object.go -/
+example : (ofKind "makecap").map (fun s => (s.file, s.line, s.func, s.cover.isMirror)) =
+    [("internal/evaluator/array.go", 169, "(*evaluator).filter", false),
+     ("internal/evaluator/array.go", 190, "(*evaluator).filterAndProjectArray", false),
+     ("internal/evaluator/array.go", 220, "(*evaluator).flattenAndProjectArray", false),
+     ("internal/evaluator/array.go", 283, "(*evaluator).projectArray", false),
+     ("internal/evaluator/array.go", 539, "flatten", true),
+     ("internal/evaluator/object.go", 53, "(*evaluator).projectObject", false),
+     ("internal/evaluator/object.go", 161, "objectValues", false)] := by decide +kernel
+example : (ofKind "makecap").all (fun s => s.text = "make([]any, 0, len(a))" ∨ s.text = "make([]any, 0, len(m))") = true := by
+  decide +kernel
 
 end Jmes.C03D.Sites
 
-/- The generator (run in a scratch module with `replace github.com/woodsbury/jmespath => /repo` and
-   golang.org/x/tools v0.29.0; prints one TAB-separated line per site: file:line, function, kind, text):
+/- The generator (run in a scratch module with `replace github.com/woodsbury/jmespath => /repo`, `cp /repo/go.sum .`,
+   golang.org/x/tools v0.29.0, `GOFLAGS=-mod=mod GOPROXY=off go run .`; prints one TAB-separated line per site:
+   file:line, function, kind, text; the sort is stable, so sites of one line are in `ast.Inspect` order):
 
 package main
 
@@ -534,6 +564,14 @@ func main() {
 					case *ast.CallExpr:
 						if id, ok := x.Fun.(*ast.Ident); ok && id.Name == "make" && len(x.Args) >= 2 {
 							if tv, ok := p.TypesInfo.Types[x.Args[1]]; ok && tv.Value != nil {
+								// constant length: only a non-constant capacity of a slice can still panic
+								if len(x.Args) == 3 {
+									if tc, ok := p.TypesInfo.Types[x.Args[2]]; !ok || tc.Value == nil {
+										if _, isSlice := p.TypesInfo.TypeOf(x.Args[0]).Underlying().(*types.Slice); isSlice {
+											out = append(out, site{rel, pos(x), name, "makecap", txt(p.Fset, x)})
+										}
+									}
+								}
 								return true
 							}
 							if _, isMap := p.TypesInfo.TypeOf(x.Args[0]).Underlying().(*types.Map); isMap {
@@ -561,7 +599,7 @@ func main() {
 			}
 		}
 	}
-	sort.Slice(out, func(i, j int) bool {
+	sort.SliceStable(out, func(i, j int) bool {
 		if out[i].file != out[j].file {
 			return out[i].file < out[j].file
 		}
